@@ -9,7 +9,7 @@ INT_DT = ["int8", "int16", "int32", "int64", "uint8", "uint16", "uint32", "uint6
 FLOAT_DT = ["float32", "float64"]
 ALL_DT = ["bool"] + INT_DT + FLOAT_DT
 # dtype pairs named by C04
-C04_DT = ["bool", "int8", "int16", "int32", "int64", "uint8", "float32", "float64"]
+C04_DT = ["bool", "int8", "int16", "int32", "int64", "uint8", "float32", "float64", "uint64", "uint16", "uint32"]
 
 _INFO = {
     "int8": (-2**7, 2**7 - 1), "int16": (-2**15, 2**15 - 1), "int32": (-2**31, 2**31 - 1),
@@ -243,3 +243,23 @@ def colsel(L, allow_none=True):
     if allow_none:
         alts.append(st.none())
     return st.one_of(*alts)
+
+
+def near_values(draw, vals, dt):
+    """values of element type dt that coincide with `vals` or differ by one, as far as dt can hold them: the boundary cases
+    of comparisons, minimum / maximum and differences, also across element types (64-bit values no float64 can tell apart)"""
+    if dt == "bool":
+        return [bool(v) for v in vals]
+    deltas = draw(st.lists(st.sampled_from([0, 0, 1, -1]), min_size=len(vals), max_size=len(vals)))
+    out = []
+    isf = dt in FLOAT_DT
+    for v, d in zip(vals, deltas):
+        if isinstance(v, float) and (v != v or v in (float("inf"), float("-inf"))):
+            out.append(v if isf else 0)
+            continue
+        if isf:
+            out.append(float(v) + d)
+        else:
+            lo, hi = int_range(dt)
+            out.append(min(max(int(v) + d, lo), hi))
+    return out
